@@ -184,6 +184,13 @@ def containers(rng, kinds=('Row', 'Diag', 'Col'), arities=(1, 2, 3)):
         b = HomothetyOperator(jnp.asarray(3., F32), sp)
         yield f'{kind}2:pytree-valued', kind, [a, b]
         yield f'{kind}1:pytree-valued', kind, {'only': a}
+        # TUPLE-valued blocks (a tuple is also what the row fold uses for its pending (block, input) pair), arities 1-4
+        tp = (K.S((2,)), K.S((2,)))
+        pool = [HomothetyOperator(jnp.asarray(2., F32), tp), DiagonalOperator(jnp.asarray([1., 3.], F32), in_structure=tp),
+                IdentityOperator(tp), HomothetyOperator(jnp.asarray(-1., F32), tp)]
+        for n in (1, 2, 3, 4):
+            yield f'{kind}{n}:tuple-valued', kind, list(pool[:n])
+        yield f'{kind}3:tuple-valued-nested', kind, {'a': pool[0], 'b': [pool[1], pool[2]]}
     # rectangular blocks (different shared / free sides)
     r = atoms(rng, s, square=False)[0]
     yield 'Row2:rect', 'Row', [r, r]
